@@ -9,6 +9,8 @@
      crash_sites       : the same as an explicit per-operation list of sites;
      crash_sites_observed : without the totality hypothesis the only further site is the crypto engine's own exception;
      no_crash_clean_ops: twelve operations have no internal-error site at all (full-strength for them);
+     no_crash_but_get_attributes / no_crash_get_attributes_1x : on the tree as it is now (most findings repaired by fix:
+                         commits) everything except the KMIP 2.0 GetAttributes empty response is crash-free;
    and each recorded signature has its `..._refuted` witness below (evaluated by vm_compute; a witness is stated through
    the generated `defect` / `policy_unknown` tables so that it stays true on a repaired tree, where it degenerates to Done). *)
 From Coq Require Import ZArith List String Bool.
@@ -47,11 +49,26 @@ Theorem no_crash_clean_ops : forall v s cr it,
 Proof. exact PK.NoCrash.Proofs.no_crash_clean_ops. Qed.
 Print Assumptions no_crash_clean_ops.
 
-Theorem clean_ops_are : forall it, clean_op it = true <->
+Theorem clean_ops_are : forall it,
   In (op_of it) ["CREATE"; "CREATE_KEY_PAIR"; "GET_ATTRIBUTE_LIST"; "ACTIVATE"; "REVOKE"; "DESTROY"; "QUERY"; "DISCOVER_VERSIONS";
-                 "ENCRYPT"; "DECRYPT"; "SIGN"; "SIGNATURE_VERIFY"].
+                 "ENCRYPT"; "DECRYPT"; "SIGN"; "SIGNATURE_VERIFY"] -> clean_op it = true.
 Proof. exact PK.NoCrash.Proofs.clean_ops_are. Qed.
 Print Assumptions clean_ops_are.
+
+(* The tree as it is now (after the fix: commits 3212380 7aa8a6e 074870c 3da5f5b 229c9a2 7ce08f2 546e738 d24c06a 1a2a215 2d8db5c):
+   every operation except GetAttributes is free of internal-error sites; GetAttributes only fails to be answered under
+   KMIP 2.0 (empty result; known finding C13-get-attributes-empty-response-20).  These two are proved by computing the
+   generated tables, so re-introducing a repaired defect breaks them. *)
+Theorem no_crash_but_get_attributes : forall v s cr it,
+  supported_version v = true -> wf_store s -> wf_item it -> crypto_total cr -> op_of it <> "GET_ATTRIBUTES" ->
+  step_crash v s cr it = false.
+Proof. exact PK.NoCrash.Proofs.no_crash_but_get_attributes. Qed.
+Print Assumptions no_crash_but_get_attributes.
+
+Theorem no_crash_get_attributes_1x : forall v s cr u names,
+  wf_store s -> ver_ge v (2,0) = false -> step_crash v s cr (IGetAttributes u names) = false.
+Proof. exact PK.NoCrash.Proofs.no_crash_get_attributes_1x. Qed.
+Print Assumptions no_crash_get_attributes_1x.
 
 (* every site of the per-operation lists is the signature of a finding recorded in findings.d/C13.json *)
 Theorem sites_are_recorded_findings : forallb (fun op => forallb (finding_listed op) (op_sites op)) all_ops = true.
@@ -93,8 +110,8 @@ Proof. vm_compute. reflexivity. Qed.
 Example delete_unknown_name_refuted :
   step (1,2) store0 COk (IDeleteAttribute1 (Some 1) "x-custom" None) = policy_site "is_attribute_applicable_to_object_type".
 Proof. vm_compute. reflexivity. Qed.
-Example locate_unknown_name_refuted :
-  step (1,2) store0 COk (ILocate [nm "x-custom"]) = policy_site "is_attribute_applicable_to_object_type".
+(* since repo commit 1a2a215 Locate refuses a filter name the version does not have before looking at any object *)
+Example locate_unknown_name_fixed : step (1,2) store0 COk (ILocate [nm "x-custom"]) = Done.
 Proof. vm_compute. reflexivity. Qed.
 Example set_unknown_name_refuted :
   step (2,0) store0 COk (ISetAttribute (Some 1) (nm "Always Sensitive")) = policy_site "is_attribute_multivalued".
